@@ -13,3 +13,5 @@ import Skv.Props.C18
 
 #print axioms C18_chain_ownership
 #print axioms rotRightBad_breaks
+#print axioms C18_scan_complete
+#print axioms fixed_scan_stopped_at_empty_leaf
